@@ -46,6 +46,34 @@ type genObs struct {
 	NSwitch  int    `json:"nswitch"` // occurrences of a generated rune switch (non-vacuity of -switch scenarios)
 	NInline  int    `json:"nnil"`    // nil entries in the rule table (inlined or unused rules)
 	Diags    [][2]string `json:"diags"` // diagnostics found on stderr: kind, rule
+	// rule calls in the emitted source, by whether the call's verdict is tested (`if !_rules[ruleX]() {`)
+	// or ignored (`_rules[ruleX]()`): the observable outcome of node.CheckAlwaysSucceeds
+	Unguarded []string `json:"unguarded"`
+	Guarded   []string `json:"guarded"`
+}
+
+var ruleCallRe = regexp.MustCompile(`(if !)?_rules\[rule([^\]]+)\]\(\)`)
+
+// ruleCalls lists the distinct rule names called with / without a test of the verdict (sorted, never nil).
+func ruleCalls(src []byte) (unguarded, guarded []string) {
+	u, g := map[string]bool{}, map[string]bool{}
+	for _, m := range ruleCallRe.FindAllSubmatch(src, -1) {
+		if len(m[1]) > 0 {
+			g[string(m[2])] = true
+		} else {
+			u[string(m[2])] = true
+		}
+	}
+	unguarded, guarded = []string{}, []string{}
+	for k := range u {
+		unguarded = append(unguarded, k)
+	}
+	for k := range g {
+		guarded = append(guarded, k)
+	}
+	sort.Strings(unguarded)
+	sort.Strings(guarded)
+	return
 }
 
 var diagRes = []struct {
@@ -243,10 +271,12 @@ func corpusMain(args []string) error {
 		}
 		u.gen.Stderr = trunc(stderr.String(), 2000)
 		u.gen.Diags = parseDiags(stderr.String())
+		u.gen.Unguarded, u.gen.Guarded = []string{}, []string{}
 		src, rerr := os.ReadFile(filepath.Join(u.dir, "g.go"))
 		u.gen.HasOut = rerr == nil && len(src) > 0
 		if u.gen.HasOut {
 			u.gen.NSwitch = bytes.Count(src, []byte("switch buffer[position] {"))
+			u.gen.Unguarded, u.gen.Guarded = ruleCalls(src)
 			u.gen.NInline = bytes.Count(src, []byte("\n\t\tnil,\n")) - 1
 			if f, e := format.Source(src); e == nil && bytes.Equal(f, src) {
 				u.gen.Gofmt = true
